@@ -352,14 +352,23 @@ impl<'a> Gen<'a> {
             b
         };
         match kind {
-            0 | 1 | 2 => OpSpec::Publish(PublishSpec {
-                qos: Some(kind as u8),
-                retain: if self.rng.chance(1, 4) { Some(true) } else { None },
-                topic: Some(format!("t/{op}")),
-                payload: Some(payload),
-                user: if self.rng.chance(1, 5) { vec![("k".into(), format!("{op}"))] } else { vec![] },
-                ..Default::default()
-            }),
+            0 | 1 | 2 => {
+                let mut spec = OpSpec::Publish(PublishSpec {
+                    qos: Some(kind as u8),
+                    retain: if self.rng.chance(1, 4) { Some(true) } else { None },
+                    topic: Some(format!("t/{op}")),
+                    payload: Some(payload),
+                    user: if self.rng.chance(1, 5) { vec![("k".into(), format!("{op}"))] } else { vec![] },
+                    ..Default::default()
+                });
+                if self.cfg.max_packet.is_none() && self.cfg.oversize_pct == 0 && self.rng.chance(1, 25) {
+                    // the packet's Remaining Length lands on an encoding boundary of the variable
+                    // byte integer: 127 | 128 and 16383 | 16384 | 16385
+                    let total = *self.rng.pick(&[129usize, 131, 132, 16_386, 16_388, 16_389]);
+                    crate::profiles::pad_to(&mut spec, total, self.rng);
+                }
+                spec
+            }
             3 => {
                 let n = self.rng.urange(1, 3);
                 let filters = (0..n)
@@ -695,6 +704,36 @@ impl<'a> Gen<'a> {
         for _ in 0..n {
             self.inbound_publish_to(sub);
         }
+    }
+
+    /// A PUBLISH whose encoding is exactly 512 (or 1024) bytes long, delivered in one read while
+    /// the client's buffer is empty: the read is filled exactly by a complete packet.
+    pub fn inbound_exact_fill(&mut self) {
+        let subs = self.subs_on_wire();
+        let total = *self.rng.pick(&[512usize, 512, 1024]);
+        let qos = self.rng.below(2) as u8;
+        let n = self.inbound_count;
+        let sub_ref: Vec<SubRef> = if subs.is_empty() { vec![] } else { vec![SubRef::Op(*self.rng.pick(&subs))] };
+        let sid = sub_ref.first().and_then(|s| if let SubRef::Op(op) = s { self.world.op_subid.get(op).copied() } else { None });
+        let topic = format!("in/{n}");
+        // measure with the reference encoder (the packet identifier is two bytes whatever it is)
+        let mut len = total.saturating_sub(20);
+        for _ in 0..8 {
+            let mut props = Props::new();
+            if let Some(sid) = sid {
+                props.push(pid::SUBSCRIPTION_ID, PropVal::VarInt(sid));
+            }
+            let p = Packet::Publish(crate::refcodec::Publish { dup: false, qos, retain: false, topic: topic.clone(), pid: if qos > 0 { Some(1) } else { None }, props, payload: vec![0; len] });
+            let l = crate::refcodec::encode(&p).len();
+            if l == total {
+                break;
+            }
+            len = (len as i64 + total as i64 - l as i64).max(0) as usize;
+        }
+        let mut payload = format!("m{n}:").into_bytes();
+        payload.resize(len.max(payload.len()), b'=');
+        self.inbound_count += 1;
+        self.push(Step::Broker { pkt: BrokerPkt::Publish { subs: sub_ref, qos, id: IdSpec::Fresh, dup: false, retain: false, topic, payload, props: Props::new() }, chunks: Chunks::Whole, hold: false });
     }
 
     /// Subscriptions on the wire whose stream has not been opened yet.
